@@ -13,7 +13,7 @@ from .vals import (OutOfReach, Arr, ExprArr, SpecArr, FunVal, Obj, INT, REAL, BO
 from .interp import Module, load_module, State, Obligation, Contract, Ctx
 from .execu import Exec, Frame, parse_annotation, loop_fingerprint, assigned_names, MAX_UNROLL
 
-BUILTINS = {'len', 'range', 'enumerate', 'min', 'max', 'abs', 'int', 'float', 'bool', 'empty', 'zeros', 'ones',
+BUILTINS = {'arange', 'atleast_1d', 'len', 'range', 'enumerate', 'min', 'max', 'abs', 'int', 'float', 'bool', 'empty', 'zeros', 'ones',
             'empty_like', 'zeros_like', 'sum', 'tuple', 'list', 'isinstance', 'print', 'zip', 'floor', 'sqrt',
             'exp', 'tanh', 'cosh', 'cos', 'sin', 'RuntimeError', 'ValueError', 'AssertionError', 'NotImplementedError',
             'str', 'reversed', 'sorted', 'all', 'any', 'prod', 'pi', 'mod', 'fabs', 'log', 'dict', 'set'}
@@ -92,13 +92,18 @@ class Engine(Exec):
             return a
         if name == 'bool':
             return truth(args[0])
+        if name == 'arange':
+            lo, hi = (0, args[0]) if len(args) == 1 else (args[0], args[1])
+            n = binop('Sub', hi, lo)
+            self.safety(st, fr, 'alloc_nonneg', compare('GtE', n, 0), node)
+            return ExprArr([n], lambda j, lo=lo: binop('Add', lo, j[0]), INT)
         if name in ('empty', 'zeros', 'ones'):
             shp = args[0]
             if not isinstance(shp, (tuple, list)):
                 shp = (shp,)
             for s in shp:
                 self.safety(st, fr, 'alloc_nonneg', compare('GtE', s, 0), node)
-            dt = kwargs.get('dtype', None)
+            dt = kwargs.get('dtype', args[1] if len(args) > 1 else None)
             elem = INT if (isinstance(dt, FunVal) and dt.name == 'int') else REAL
             a = self.new_arr(st, len(shp), list(shp), elem, name)
             if name != 'empty':
@@ -118,10 +123,14 @@ class Engine(Exec):
                 f = self.elem_fn(st, a)
                 return ExprArr(a.shape, lambda j: self.math1(name, f(j), st), REAL)
             return self.math1(name, a, st)
-        if name == 'tuple':
-            return tuple(args[0])
-        if name == 'list':
-            return list(args[0])
+        if name in ('tuple', 'list'):
+            a = args[0] if args else []
+            if self.is_arr(a):
+                if a.rank != 1 or not is_cint(a.shape[0]):
+                    raise OutOfReach('%s() of an array of symbolic length' % name)
+                f = self.elem_fn(st, a)
+                a = [f((k,)) for k in range(a.shape[0])]
+            return tuple(a) if name == 'tuple' else list(a)
         if name == 'range':
             if all(is_cint(a) for a in args):
                 return list(range(*args))
@@ -144,6 +153,9 @@ class Engine(Exec):
             raise OutOfReach('sum of array')
         if name == 'prod':
             a = args[0]
+            if self.is_arr(a) and a.rank == 1 and is_cint(a.shape[0]):
+                f = self.elem_fn(st, a)
+                a = [f((k,)) for k in range(a.shape[0])]
             if isinstance(a, (list, tuple)):
                 r = 1
                 for x in a:
@@ -423,6 +435,7 @@ class Engine(Exec):
     def instantiate_class(self, f, args, kwargs, st, fr, node):
         rel, cname = f.ref
         obj = Obj((rel, cname))
+        st.objs[obj.oid] = {}
         r = self.find_method((rel, cname), '__init__')
         if r is None:
             return [(st, obj)]
@@ -543,7 +556,7 @@ class Engine(Exec):
                     a = self.new_arr(st, v.rank, v.shape, v.elem, t.attr)
                     st.heap[a.aid] = self.arr_term(st, v)
                     v = a
-                base.attrs[t.attr] = v
+                st.objs.setdefault(base.oid, {})[t.attr] = v
             else:
                 raise OutOfReach('attribute store')
         else:
@@ -576,8 +589,8 @@ class Engine(Exec):
                 self.store(s2, fr, base, idx, new, t)
             elif isinstance(t, ast.Attribute):
                 base = self.ev(t.value, s2, fr)
-                cur = base.attrs[t.attr]
-                base.attrs[t.attr] = self.do_binop(opn, cur, rhs, s2, fr, s)
+                cur = s2.objs[base.oid][t.attr]
+                s2.objs[base.oid][t.attr] = self.do_binop(opn, cur, rhs, s2, fr, s)
             else:
                 raise OutOfReach('augassign target')
             out.append(s2)
